@@ -56,6 +56,8 @@ type c10frame struct {
 	resolved map[ssa.Value]bool // SSA values that are the descriptor Repository.Resolve returned
 
 	memo map[c10cell]c10stores
+
+	extLoop map[*ssa.BasicBlock]bool // headers of loops recognised by their induction variable only (c10frame.loops)
 }
 
 func c10IsLoad(v ssa.Value) (*ssa.UnOp, bool) {
@@ -1279,4 +1281,673 @@ func (x *c10frame) findStateObject() {
 	if n == 1 {
 		x.obj, x.objPtr = obj, ptr
 	}
+}
+
+// ---------- the iteration budget ---------------------------------------------------
+//
+// Third form of the bound (next to "counter < limit tested in every iteration" and its counting-down twin): the page
+// worker does not test the counter per iteration at all; before the loop it cuts the page to the attempts that are left
+// and ranges over what remains:
+//
+//	if left := limit - counter; len(page) > left { page = page[:left] }     (or page[:min(len(page), left)], or an index
+//	for _, m := range page { counter++; fetch; verify … }                     loop `for i := 0; i < n; i++`, n that minimum)
+//
+// What is proved, on SSA values (c10bud):
+//  1. budget B: `L - *counter` with L the caller's MaxSignatureAttempts held in cells only the outer function writes
+//     (counting down: `*counter`), where the load of the counter runs in the page worker before the loop only (its block
+//     is outside the loop and reaches the header) and the loop is entered at most once per invocation (no path leaves it
+//     and comes back). The only store to the counter in the callback is the counting store, which is inside the loop
+//     (checked by the caller), the stores of the outer function do not run during the listing, so every such load yields
+//     the value c0 the counter has when this invocation enters the loop: all budget expressions of one invocation are
+//     equal, B = L - c0 (down: c0).
+//  2. bound n == min(len(page), B): a builtin min of the two; or a phi / the result of a module helper, where every
+//     incoming edge (every return) carries len(page) under a fact `len(page) <= B`, or B under a fact `B <= len(page)`, or
+//     again such a minimum. A fact is a branch edge every path from the entry of that function to the phi edge (return)
+//     takes, read off the compared SSA values. All quantities compared are constant during the invocation (1.), so a fact
+//     that held when the branch was taken holds at the loop. The ranged slice R is page[:n] (low bound absent or 0, no
+//     max), or by the same case split `page` under len(page) <= B / page[:B] under B <= len(page); len(R) == n, R[i] is
+//     page[i], and B <= len(page) rules out re-slicing beyond the listed elements into the capacity.
+//  3. gate: a branch edge `t < n` inside the loop, t an induction value of the loop header (phi that enters with a
+//     constant and is advanced by exactly +1 on every back edge; t the phi or phi+1) whose first value is 0, n as in 2. and
+//     defined outside the loop. In the j-th pass through the header t == j-1, so the gate lets pass iterations j <= n only.
+//     Two gates, one `t < len(page)` and one `t' < B` (t, t' both such induction values), are the same condition.
+// Consequence: an iteration that passes the gate has j <= min(len(page), L - c0). With "every attempt is preceded by the
+// counting store of its iteration" (bound/counted) attempts <= counter holds throughout; an invocation entered with
+// counter c0 (attempts so far A0 <= c0) makes at most L - c0 further attempts: A <= A0 + L - c0 <= L (down form: the
+// invariant is attempts <= L - counter). That is the clause the per-iteration guard stands for; exactness (not N-1): the
+// j-th listed manifest is passed on exactly when c0 + j - 1 < L, the same condition the guard form tests.
+//
+// The rule requires the gate among the branch edges every path from the loop header to the call (to the counting store)
+// takes, i.e. in the same iteration.
+
+type c10bud struct {
+	x       *c10frame
+	loop    *loopRef
+	inLoop  map[int]bool
+	counter c10cell
+	down    bool
+	why     string // why the form does not apply, if it does not
+	before  map[int]bool
+}
+
+// kinds of int values / slice values in one invocation of the page worker
+const (
+	c10kOther  = iota
+	c10kLen    // len(page)
+	c10kBudget // the attempts left when the loop is entered
+	c10kMin    // min(len(page), budget)
+	c10sPage   // the listed page
+	c10sCut    // page[:budget]
+	c10sPrefix // page[:min(len(page), budget)]
+)
+
+// c10env: the frame a value is looked at in: the page worker itself (parent == nil), or a module helper it calls, whose
+// parameters stand for the arguments of that call.
+type c10env struct {
+	fn     *ssa.Function
+	call   *ssa.Call
+	parent *c10env
+}
+
+func (e *c10env) depth() int {
+	n := 0
+	for ; e != nil; e = e.parent {
+		n++
+	}
+	return n
+}
+
+func (b *c10bud) resolve(v ssa.Value, env *c10env) (ssa.Value, *c10env) {
+	for env.parent != nil {
+		p, ok := v.(*ssa.Parameter)
+		if !ok || p.Parent() != env.fn {
+			break
+		}
+		found := false
+		for i, q := range env.fn.Params {
+			if q == p && i < len(env.call.Call.Args) {
+				v, env, found = env.call.Call.Args[i], env.parent, true
+				break
+			}
+		}
+		if !found {
+			break
+		}
+	}
+	return v, env
+}
+
+// preLoop: the instruction runs in the page worker and only before the loop is entered: its block is outside the loop and
+// the loop header can be reached from it. (It cannot also run after the loop: a block that is reachable from a loop exit and
+// reaches the header would be a way back into the loop, which c10LoopOnce excludes.)
+func (b *c10bud) preLoop(in ssa.Instruction) bool {
+	if in.Parent() != b.x.CB || in.Block() == nil || b.inLoop[in.Block().Index] {
+		return false
+	}
+	if b.before == nil {
+		// blocks from which the header is reachable
+		b.before = map[int]bool{b.loop.Header.Index: true}
+		stack := []*ssa.BasicBlock{b.loop.Header}
+		for len(stack) > 0 {
+			blk := stack[len(stack)-1]
+			stack = stack[:len(stack)-1]
+			for _, p := range blk.Preds {
+				if !b.before[p.Index] {
+					b.before[p.Index] = true
+					stack = append(stack, p)
+				}
+			}
+		}
+	}
+	return b.before[in.Block().Index]
+}
+
+// isStableLimit: the caller's MaxSignatureAttempts, read through cells that only the outer function writes (so that two
+// reads during the listing agree).
+func (x *c10frame) isStableLimit(v ssa.Value) bool {
+	if !x.isLimit(v) {
+		return false
+	}
+	v = c10StripConv(v)
+	for i := 0; i < 8; i++ {
+		if a := x.up(v); a != nil {
+			v = a
+			continue
+		}
+		c, ok := x.cellOfLoad(v)
+		if !ok {
+			break
+		}
+		s := x.stores(c)
+		if !s.ok || len(s.sts) != 1 {
+			break
+		}
+		if s.sts[0].Parent() != x.W {
+			return false
+		}
+		v = s.sts[0].Val
+	}
+	if u, ok := c10IsLoad(v); ok {
+		if fa, ok := u.X.(*ssa.FieldAddr); ok {
+			if c, ok := x.cellOf(fa.X); ok {
+				if s := x.stores(c); !s.ok || len(s.sts) != 1 || s.sts[0].Parent() != x.W {
+					return false
+				}
+			}
+		}
+	}
+	return true
+}
+
+// isBudget: v (a value of the page worker) is the number of attempts left when the loop is entered.
+func (b *c10bud) isBudget(v ssa.Value) bool {
+	cnt := func(v ssa.Value) bool {
+		u, ok := c10IsLoad(v)
+		if !ok || !b.preLoop(u) {
+			return false
+		}
+		c, ok := b.x.cellOf(u.X)
+		return ok && c == b.counter
+	}
+	if b.down {
+		return cnt(v)
+	}
+	bo, ok := v.(*ssa.BinOp)
+	return ok && bo.Op == token.SUB && cnt(bo.Y) && b.x.isStableLimit(bo.X)
+}
+
+func c10Builtin(v ssa.Value, name string) *ssa.Call {
+	call, ok := v.(*ssa.Call)
+	if !ok {
+		return nil
+	}
+	if bi, ok := call.Call.Value.(*ssa.Builtin); !ok || bi.Name() != name {
+		return nil
+	}
+	return call
+}
+
+// c10fact: a comparison known to hold, over kinds of values
+type c10fact struct {
+	op   token.Token
+	a, b int
+}
+
+// facts: what the branch edges say about len(page) and the budget.
+func (b *c10bud) facts(edges []c10Edge, env *c10env, busy map[ssa.Value]bool) []c10fact {
+	var out []c10fact
+	for _, e := range edges {
+		op, l, r, ok := c10Cmp(e.iff.Cond, e.truth)
+		if !ok {
+			continue
+		}
+		kl, kr := b.intKind(l, env, nil, busy), b.intKind(r, env, nil, busy)
+		if kl != c10kOther && kr != c10kOther {
+			out = append(out, c10fact{op, kl, kr})
+		}
+	}
+	return out
+}
+
+// c10LE: the facts say that a value of kind p is at most a value of kind q.
+func c10LE(fs []c10fact, p, q int) bool {
+	for _, f := range fs {
+		if f.a == p && f.b == q && (f.op == token.LSS || f.op == token.LEQ || f.op == token.EQL) {
+			return true
+		}
+		if f.a == q && f.b == p && (f.op == token.GTR || f.op == token.GEQ || f.op == token.EQL) {
+			return true
+		}
+	}
+	return false
+}
+
+// edgeFacts: the branch edges taken on every path from the entry of fn to the control-flow edge pred -> succ.
+func (b *c10bud) edgeFacts(fn *ssa.Function, pred, succ *ssa.BasicBlock) []c10Edge {
+	fi := b.x.w.Info(fn)
+	var out []c10Edge
+	if pred.Index != 0 {
+		out = c10MustPassEdges(fi, fn.Blocks[0], map[int]bool{pred.Index: true})
+	}
+	if iff, ok := blockTerm(pred).(*ssa.If); ok && len(pred.Succs) == 2 && pred.Succs[0] != pred.Succs[1] {
+		out = append(out, c10Edge{iff, pred.Succs[0] == succ})
+	}
+	return out
+}
+
+// helperEnv: the call runs a module function whose body can be looked into.
+func (b *c10bud) helperEnv(call *ssa.Call, env *c10env) *c10env {
+	h := staticCallee(call)
+	if h == nil || h.Blocks == nil || !b.x.w.IsProductFn(h) || len(h.FreeVars) != 0 || len(call.Call.Args) != len(h.Params) || env.depth() >= 3 {
+		return nil
+	}
+	for e := env; e != nil; e = e.parent {
+		if e.fn == h {
+			return nil
+		}
+	}
+	return &c10env{fn: h, call: call, parent: env}
+}
+
+// merge: the kinds of a value on every way it can come about (with the facts known on that way) agree.
+func (b *c10bud) merge(n int, kindAt func(i int) int) int {
+	k := c10kOther
+	for i := 0; i < n; i++ {
+		ki := kindAt(i)
+		if ki == c10kOther || (i > 0 && ki != k) {
+			return c10kOther
+		}
+		k = ki
+	}
+	return k
+}
+
+// ways enumerates how a phi or a helper call gets its value: value, frame, and the branch edges known to be taken.
+type c10way struct {
+	v     ssa.Value
+	env   *c10env
+	edges []c10Edge
+}
+
+func (b *c10bud) ways(v ssa.Value, env *c10env) []c10way {
+	switch t := v.(type) {
+	case *ssa.Phi:
+		if t.Parent() != env.fn || (env.parent == nil && b.inLoop[t.Block().Index]) {
+			return nil
+		}
+		var out []c10way
+		for i, e := range t.Edges {
+			out = append(out, c10way{e, env, b.edgeFacts(t.Parent(), t.Block().Preds[i], t.Block())})
+		}
+		return out
+	case *ssa.Call:
+		he := b.helperEnv(t, env)
+		if he == nil || he.fn.Signature.Results().Len() != 1 {
+			return nil
+		}
+		var out []c10way
+		fi := b.x.w.Info(he.fn)
+		for _, blk := range he.fn.Blocks {
+			ret, ok := blockTerm(blk).(*ssa.Return)
+			if !ok || len(ret.Results) != 1 {
+				continue
+			}
+			var edges []c10Edge
+			if blk.Index != 0 {
+				edges = c10MustPassEdges(fi, he.fn.Blocks[0], map[int]bool{blk.Index: true})
+			}
+			out = append(out, c10way{ret.Results[0], he, edges})
+		}
+		return out
+	}
+	return nil
+}
+
+// intKind classifies an int value; fs are facts known at its use.
+func (b *c10bud) intKind(v ssa.Value, env *c10env, fs []c10fact, busy map[ssa.Value]bool) int {
+	v, env = b.resolve(v, env)
+	up := func(k int) int {
+		switch {
+		case k == c10kLen && c10LE(fs, c10kLen, c10kBudget):
+			return c10kMin
+		case k == c10kBudget && c10LE(fs, c10kBudget, c10kLen):
+			return c10kMin
+		}
+		return k
+	}
+	if env.parent == nil && b.isBudget(v) {
+		return up(c10kBudget)
+	}
+	if call := c10Builtin(v, "len"); call != nil && len(call.Call.Args) == 1 {
+		if b.sliceKind(call.Call.Args[0], env, nil, busy) == c10sPage {
+			return up(c10kLen)
+		}
+		switch b.sliceKind(call.Call.Args[0], env, fs, busy) {
+		case c10sPrefix:
+			return c10kMin
+		case c10sCut:
+			return up(c10kBudget)
+		}
+		return c10kOther
+	}
+	if call := c10Builtin(v, "min"); call != nil && len(call.Call.Args) == 2 {
+		k0, k1 := b.intKind(call.Call.Args[0], env, nil, busy), b.intKind(call.Call.Args[1], env, nil, busy)
+		if (k0 == c10kLen && k1 == c10kBudget) || (k0 == c10kBudget && k1 == c10kLen) {
+			return c10kMin
+		}
+		return c10kOther
+	}
+	if busy[v] {
+		return c10kOther
+	}
+	busy[v] = true
+	defer delete(busy, v)
+	ws := b.ways(v, env)
+	if len(ws) == 0 {
+		return c10kOther
+	}
+	return up(b.merge(len(ws), func(i int) int {
+		return b.intKind(ws[i].v, ws[i].env, b.facts(ws[i].edges, ws[i].env, busy), busy)
+	}))
+}
+
+// sliceKind classifies a slice value; fs are facts known at its use.
+func (b *c10bud) sliceKind(v ssa.Value, env *c10env, fs []c10fact, busy map[ssa.Value]bool) int {
+	v, env = b.resolve(v, env)
+	up := func(k int) int {
+		switch {
+		case k == c10sPage && c10LE(fs, c10kLen, c10kBudget):
+			return c10sPrefix
+		case k == c10sCut && c10LE(fs, c10kBudget, c10kLen):
+			return c10sPrefix
+		}
+		return k
+	}
+	if env.parent == nil && b.x.page != nil && v == ssa.Value(b.x.page) {
+		return up(c10sPage)
+	}
+	if sl, ok := v.(*ssa.Slice); ok {
+		if sl.Max != nil || (sl.Low != nil && !c10IntConst(sl.Low, 0)) || sl.High == nil {
+			return c10kOther
+		}
+		if b.sliceKind(sl.X, env, nil, busy) != c10sPage {
+			return c10kOther
+		}
+		switch b.intKind(sl.High, env, fs, busy) {
+		case c10kMin:
+			return c10sPrefix
+		case c10kBudget:
+			return up(c10sCut)
+		case c10kLen:
+			return up(c10sPage)
+		}
+		return c10kOther
+	}
+	if busy[v] {
+		return c10kOther
+	}
+	busy[v] = true
+	defer delete(busy, v)
+	ws := b.ways(v, env)
+	if len(ws) == 0 {
+		return c10kOther
+	}
+	return up(b.merge(len(ws), func(i int) int {
+		return b.sliceKind(ws[i].v, ws[i].env, b.facts(ws[i].edges, ws[i].env, busy), busy)
+	}))
+}
+
+// c10Induction: t is an induction value of the loop: a phi of the header that enters the loop with one constant and is
+// advanced by exactly +1 on every back edge, or that phi + 1; result: the value of t in the first pass.
+func c10Induction(t ssa.Value, header *ssa.BasicBlock, inLoop map[int]bool) (int64, bool) {
+	plusOne := func(v ssa.Value) *ssa.Phi {
+		bo, ok := v.(*ssa.BinOp)
+		if !ok || bo.Op != token.ADD {
+			return nil
+		}
+		switch {
+		case c10IntConst(bo.Y, 1):
+			p, _ := bo.X.(*ssa.Phi)
+			return p
+		case c10IntConst(bo.X, 1):
+			p, _ := bo.Y.(*ssa.Phi)
+			return p
+		}
+		return nil
+	}
+	d := int64(0)
+	phi, ok := t.(*ssa.Phi)
+	if !ok {
+		if phi = plusOne(t); phi == nil {
+			return 0, false
+		}
+		d = 1
+	}
+	if bt, ok := phi.Type().Underlying().(*types.Basic); !ok || bt.Kind() != types.Int {
+		return 0, false
+	}
+	if phi.Block() != header || len(phi.Edges) != len(header.Preds) {
+		return 0, false
+	}
+	nOut, nBack := 0, 0
+	var c0 int64
+	for i, e := range phi.Edges {
+		if !inLoop[header.Preds[i].Index] {
+			k, isK := e.(*ssa.Const)
+			if !isK || k.Value == nil || k.Value.Kind() != constant.Int {
+				return 0, false
+			}
+			m, exact := constant.Int64Val(k.Value)
+			if !exact || (nOut > 0 && m != c0) {
+				return 0, false
+			}
+			c0 = m
+			nOut++
+			continue
+		}
+		if plusOne(e) != phi {
+			return 0, false
+		}
+		nBack++
+	}
+	if nOut == 0 || nBack == 0 {
+		return 0, false
+	}
+	return c0 + d, true
+}
+
+// c10LoopOnce: no path leaves the loop and comes back into it (the loop is not nested in another one).
+func c10LoopOnce(fn *ssa.Function, inLoop map[int]bool) bool {
+	seen := map[int]bool{}
+	var stack []*ssa.BasicBlock
+	for _, blk := range fn.Blocks {
+		if !inLoop[blk.Index] {
+			continue
+		}
+		for _, s := range blk.Succs {
+			if !inLoop[s.Index] && !seen[s.Index] {
+				seen[s.Index] = true
+				stack = append(stack, s)
+			}
+		}
+	}
+	for len(stack) > 0 {
+		blk := stack[len(stack)-1]
+		stack = stack[:len(stack)-1]
+		for _, s := range blk.Succs {
+			if inLoop[s.Index] {
+				return false
+			}
+			if !seen[s.Index] {
+				seen[s.Index] = true
+				stack = append(stack, s)
+			}
+		}
+	}
+	return true
+}
+
+// iterBudget prepares the decision of the iteration-budget form for the loop over the listed manifests. inc is the
+// counting store (the one store of the callback to the counter).
+func (x *c10frame) iterBudget(loop *loopRef, inLoop map[int]bool, counter c10cell, down bool, inc *ssa.Store) *c10bud {
+	b := &c10bud{x: x, loop: loop, inLoop: inLoop, counter: counter, down: down}
+	switch {
+	case x.page == nil:
+		b.why = "the page parameter is not known"
+	case !x.inIter(inc, inLoop):
+		b.why = "the counting store is outside the loop"
+	case !c10LoopOnce(x.CB, inLoop):
+		b.why = "the loop can be entered more than once per invocation"
+	}
+	return b
+}
+
+// gateKind: the branch edge is `t < n` inside the loop with t counting the passes through the loop header from 0; result:
+// what n is — min(len(page), attempts left), len(page) or the attempts left, each fixed before the loop — else c10kOther.
+func (b *c10bud) gateKind(e c10Edge) int {
+	if b.why != "" || e.iff.Parent() != b.x.CB || !b.inLoop[e.iff.Block().Index] {
+		return c10kOther
+	}
+	op, l, r, ok := c10Cmp(e.iff.Cond, e.truth)
+	if !ok {
+		return c10kOther
+	}
+	var t, n ssa.Value
+	switch op {
+	case token.LSS:
+		t, n = l, r
+	case token.GTR:
+		t, n = r, l
+	default:
+		return c10kOther
+	}
+	if first, ok := c10Induction(t, b.loop.Header, b.inLoop); !ok || first != 0 {
+		return c10kOther
+	}
+	return b.intKind(n, &c10env{fn: b.x.CB}, nil, map[ssa.Value]bool{})
+}
+
+// gated: the branch edges (taken on every path of one iteration to some instruction) let the j-th iteration pass only
+// under j-1 < min(len(page), attempts left): one test against that minimum, or one against each of the two
+// (`for i, m := range page { if i >= left { break } … }`: the header tests i < len(page), the body i < left).
+func (b *c10bud) gated(edges []c10Edge) bool {
+	hasLen, hasBudget := false, false
+	for _, e := range edges {
+		switch b.gateKind(e) {
+		case c10kMin:
+			return true
+		case c10kLen:
+			hasLen = true
+		case c10kBudget:
+			hasBudget = true
+		}
+	}
+	return hasLen && hasBudget
+}
+
+// headEdges: the branch edges every path from the loop header to the instruction takes (for an instruction of the
+// per-signature worker: to the worker's call) — the tests of the same iteration, the header's included.
+func (x *c10frame) headEdges(loop *loopRef, in ssa.Instruction) []c10Edge {
+	if x.H != nil && in.Parent() == x.H {
+		in = x.hc
+	}
+	if in.Parent() != x.CB || in.Block() == loop.Header {
+		return nil
+	}
+	return c10MustPassEdges(x.w.Info(x.CB), loop.Header, blocksOf(in))
+}
+
+func (b *c10bud) whyNot() string {
+	if b.why != "" {
+		return b.why
+	}
+	return "no branch `i < n` on the way from the loop header with i counting the iterations from 0 and n provably min(len(page), attempts left) fixed before the loop"
+}
+
+// loops: the loops over a slice the engine recognises (range, `for i := 0; i < len(x); i++`), plus index loops whose
+// bound is not spelled len(x) (`n := …; for i := 0; i < n; i++ { … x[i] … }`): a header that ends in a test `i < n` of an
+// induction value of that header (c10Induction), one branch staying in the loop, the other leaving it; the slice looped
+// over is the one the loop indexes with that induction value (exactly one such slice, else the loop is not recognised).
+func (x *c10frame) loops(fn *ssa.Function) []loopRef {
+	out := allLoops(fn)
+	known := map[*ssa.BasicBlock]bool{}
+	for _, l := range out {
+		known[l.Header] = true
+	}
+	for _, h := range fn.Blocks {
+		if known[h] || len(h.Succs) != 2 {
+			continue
+		}
+		iff, ok := blockTerm(h).(*ssa.If)
+		if !ok {
+			continue
+		}
+		back := false
+		for _, p := range h.Preds {
+			if h.Dominates(p) {
+				back = true
+			}
+		}
+		if !back {
+			continue
+		}
+		in := loopBlocks(h)
+		if !in[h.Succs[0].Index] || in[h.Succs[1].Index] {
+			continue
+		}
+		op, l, r, ok := c10Cmp(iff.Cond, true)
+		if !ok {
+			continue
+		}
+		var t ssa.Value
+		switch op {
+		case token.LSS:
+			t = l
+		case token.GTR:
+			t = r
+		default:
+			continue
+		}
+		if first, ok := c10Induction(t, h, in); !ok || first != 0 {
+			continue
+		}
+		var xs []ssa.Value
+		for bi := range in {
+			for _, ins := range fn.Blocks[bi].Instrs {
+				var x ssa.Value
+				switch ia := ins.(type) {
+				case *ssa.IndexAddr:
+					if ia.Index == t {
+						x = ia.X
+					}
+				case *ssa.Index:
+					if ia.Index == t {
+						x = ia.X
+					}
+				}
+				if x == nil {
+					continue
+				}
+				dup := false
+				for _, y := range xs {
+					if y == x {
+						dup = true
+					}
+				}
+				if !dup {
+					xs = append(xs, x)
+				}
+			}
+		}
+		if len(xs) != 1 {
+			continue
+		}
+		out = append(out, loopRef{Header: h, Body: h.Succs[0], Exit: h.Succs[1], X: xs[0], Idx: t})
+		if x.extLoop == nil {
+			x.extLoop = map[*ssa.BasicBlock]bool{}
+		}
+		x.extLoop[h] = true
+	}
+	return out
+}
+
+// headerBoundKind: the kind of the bound n in the header test `i < n` of the loop (c10kOther if the header is no such test).
+func (b *c10bud) headerBoundKind() int {
+	iff, ok := blockTerm(b.loop.Header).(*ssa.If)
+	if !ok {
+		return c10kOther
+	}
+	op, l, r, ok := c10Cmp(iff.Cond, true)
+	if !ok {
+		return c10kOther
+	}
+	n := r
+	switch op {
+	case token.LSS:
+	case token.GTR:
+		n = l
+	default:
+		return c10kOther
+	}
+	return b.intKind(n, &c10env{fn: b.x.CB}, nil, map[ssa.Value]bool{})
 }
